@@ -139,7 +139,7 @@ def check(ctx):
                 writers.setdefault(fi.fq, set()).add(n.attr)
     allowed = {f"{OPS}:MeshOperators.__init__", f"{OPS}:MeshOperators.set_link_exponents"}
     extra = sorted(set(writers) - allowed)
-    ctx.ob("R04.5", "writers of psi_gradient/psi_laplacian", not extra and allowed <= set(writers),
+    ctx.ob("R04.5", "writers of psi_gradient/psi_laplacian", not extra and f"{OPS}:MeshOperators.set_link_exponents" in writers,
            detail={k: sorted(v) for k, v in writers.items()}, where="repo", construct="who writes psi_gradient/psi_laplacian",
            message=f"covariant operators are also written by {extra}",
            consequence="the vector potential can reach the operators without going through the link-variable code")
